@@ -1134,3 +1134,83 @@ func splitFormMatchesLayout(p *core.Program, m *core.FuncDecl, rs *ast.RangeStmt
 	}
 	return fmt.Sprintf("split at the key's separator and compared with the owner key as a whole on the field groups [0:%d] and [%d:%d]; the variant is hex text, namespace and owner name are Kubernetes names (no separator)", nParts, nParts, 2*nParts), true
 }
+
+// PairFilterExclusions is C06-pairs (also a condition of C08 and C16). Exposure data of a pod are computed lazily, as a
+// side effect of evaluating the pairs the pod takes part in, and the bookkeeping of connlist reads them at the FIRST pair
+// in which the pod is the destination - which is a pair with an IP block as source, because GetPeersList puts the IP
+// peers first (C06-order) and the pair filter keeps every (IP block, workload) pair of a reported workload. A new reason
+// to exclude pairs (an option that drops the pairs with an IP end, or all pairs but those with one named peer) makes the
+// first pair of a workload one whose source may be restricted, the ingress side is then never evaluated there, and the
+// report says `not protected` or `entire cluster` for a pod that a policy governs - or says so in some runs only,
+// depending on map order. So every constant `false` exit of the pair filter is taken on a path whose condition entails
+// one of the reviewed reasons: both ends are IP blocks; the two ends are the same peer (equal String()); an exclusion
+// under the exposure option (judged by C07-g); neither end is the focus workload.
+func PairFilterExclusions(p *core.Program, r *core.Report, rule string) {
+	fd := p.Func(core.PkgConnlist, "ConnlistAnalyzer", "includePairOfWorkloads")
+	if fd == nil {
+		r.Lost(rule, "(*ConnlistAnalyzer).includePairOfWorkloads")
+		return
+	}
+	info := fd.Pkg.TypesInfo
+	sig := fd.Obj.Type().(*types.Signature)
+	var peers []*types.Var
+	for i := 0; i < sig.Params().Len(); i++ {
+		if strings.HasSuffix(sig.Params().At(i).Type().String(), "connlist.Peer") || strings.HasSuffix(sig.Params().At(i).Type().String(), "eval.Peer") {
+			peers = append(peers, sig.Params().At(i))
+		}
+	}
+	if len(peers) != 2 {
+		r.Add(rule, fd.Key()+": (src, dst) peer parameters", p.Pos(fd.Decl.Pos()), core.Undecided, "the pair filter no longer takes exactly two peers")
+		return
+	}
+	n := 0
+	w := facts.NewWalker(info)
+	w.OnExit = func(st int, ret *ast.ReturnStmt, f facts.Formula) {
+		if w.FuncLitDepth > 0 || ret == nil || len(ret.Results) != 1 {
+			return
+		}
+		if v, _ := core.ConstString(info, ret.Results[0]); v != "false" {
+			return
+		}
+		n++
+		src, dst := w.PathOfVar(peers[0]), w.PathOfVar(peers[1])
+		known := func(a string, val bool) bool {
+			if val {
+				return facts.Entails(f, facts.Atom(a))
+			}
+			return facts.Entails(f, facts.MkNot(facts.Atom(a)))
+		}
+		reason := ""
+		var ipSrc, ipDst bool
+		notFocus := 0
+		for _, a := range facts.Atoms(f) {
+			sa := facts.StripVersions(a)
+			switch {
+			case strings.HasSuffix(sa, ".IsPeerIPType()") && known(a, true):
+				if strings.Contains(a, src+".") {
+					ipSrc = true
+				}
+				if strings.Contains(a, dst+".") {
+					ipDst = true
+				}
+			case strings.Contains(sa, ".String()") && strings.Contains(a, src+".") && strings.Contains(a, dst+".") && known(a, true):
+				reason = "the two ends are the same peer"
+			case strings.HasSuffix(sa, ".exposureAnalysis") && known(a, true):
+				reason = "an exclusion under the exposure option (its cases are judged by C07-g)"
+			case strings.Contains(sa, "isPeerFocusWorkload(") && known(a, false):
+				notFocus++
+			}
+		}
+		if ipSrc && ipDst {
+			reason = "both ends are IP blocks"
+		}
+		if notFocus >= 2 {
+			reason = "neither end is the focus workload"
+		}
+		r.Check(reason != "", rule, fd.Key()+": `return false` "+fmt.Sprint(n)+" excludes a pair for a reviewed reason only", p.Pos(ret.Pos()), reason,
+			"the pair filter excludes pairs under "+facts.StripVersions(facts.String(f))+", which entails none of the reviewed reasons (both ends IP blocks; the same peer; an exclusion under the exposure option; neither end the focus workload): the exposure data of a pod are read at the first pair in which it is the destination, and that pair must be one whose source is an unrestricted IP block - with other pairs excluded the report says `not protected` / `entire cluster` for a governed pod, in some runs or in all")
+	}
+	w.WalkBody(fd.Decl.Body, nil)
+	r.RuleCounts[rule] = n
+	r.Floor(rule, 1)
+}
